@@ -33,9 +33,11 @@ def run(ctx):
     if ctx.violations:      # a hang or crash of the decoder: later stages would only wait on spinning goroutines
         return ctx.finish()
     t2 = ctx.path("mal.ndjson")
-    ctx.driver(drv, ["-out", t2, "-mal", 6000 if ctx.quick else 80000])
+    o2 = ctx.path("mal-own.ndjson")
+    ctx.driver(drv, ["-out", t2, "-mal", 6000 if ctx.quick else 80000, "-own", o2])
     ctx.validate("WireTrace", t2, wirefam.keyfn, describe=wirefam.describe, only=["Inv_C01_", "Unconsumable"],
                  timeout=3000, require_events=5000)
+    wirefam.check_pool(ctx, o2, "mutated wire images")
     if ctx.violations:
         return ctx.finish()
     # listener level: malformed input is rejected in the listener's way and the listener keeps serving
